@@ -132,3 +132,54 @@ func waitBlocked(id int64, fn string, d time.Duration) bool {
 		time.Sleep(50 * time.Microsecond)
 	}
 }
+
+// goneChan reports (once) when goroutine id has ended: how the driver learns that a goroutine started by the library
+// itself (the automatic refresh) has returned.
+func goneChan(id int64) chan result {
+	ch := make(chan result, 1)
+	go func() {
+		hdr := "goroutine " + strconv.FormatInt(id, 10) + " ["
+		buf := make([]byte, 1<<16)
+		for {
+			n := runtime.Stack(buf, true)
+			if n == len(buf) {
+				buf = make([]byte, 2*len(buf))
+				continue
+			}
+			if !strings.Contains(string(buf[:n]), hdr) {
+				ch <- result{}
+				return
+			}
+			time.Sleep(100 * time.Microsecond)
+		}
+	}()
+	return ch
+}
+
+// findBlocked returns the id of a goroutine parked in a channel operation whose stack contains both frames, or 0.
+func findBlocked(fn1, fn2 string, d time.Duration) int64 {
+	deadline := time.Now().Add(d)
+	buf := make([]byte, 1<<16)
+	for {
+		n := runtime.Stack(buf, true)
+		if n == len(buf) {
+			buf = make([]byte, 2*len(buf))
+			continue
+		}
+		for _, blk := range strings.Split(string(buf[:n]), "\n\n") {
+			if !strings.HasPrefix(blk, "goroutine ") || !strings.Contains(blk, fn1) || !strings.Contains(blk, fn2) {
+				continue
+			}
+			line := blk[:strings.Index(blk, "\n")]
+			if strings.Contains(line, "[select") || strings.Contains(line, "[chan send") {
+				f := strings.Fields(line)
+				id, _ := strconv.ParseInt(f[1], 10, 64)
+				return id
+			}
+		}
+		if time.Now().After(deadline) {
+			return 0
+		}
+		time.Sleep(50 * time.Microsecond)
+	}
+}
